@@ -84,6 +84,13 @@ func (l *slowLister) Servers() []*url.URL {
 	return l.RoundRobin.Servers()
 }
 
+// countingMeter counts the samples it is given; never ready, so that no re-weighting pass runs
+type countingMeter struct{ n int64 }
+
+func (m *countingMeter) Rating() float64           { return 0 }
+func (m *countingMeter) Record(int, time.Duration) { atomic.AddInt64(&m.n, 1) }
+func (m *countingMeter) IsReady() bool             { return false }
+
 // fixedMeter is always ready and reports the rating it was built with
 type fixedMeter struct{ rating float64 }
 
@@ -908,6 +915,86 @@ func main() {
 			}
 		}
 		clock.Unfreeze()
+	}
+
+	// 3g. rebalancer: a server is removed while a request served by another one is in flight: when that request returns,
+	// its sample is recorded for the server that served it (no sample lost, none credited to somebody else), and the
+	// response is relayed as usual
+	{
+		scenarios++
+		var meters []*countingMeter
+		entered, release := make(chan string, 1), make(chan struct{})
+		var hold int32
+		var servedMu sync.Mutex
+		servedBy := map[string]int64{}
+		h := http.HandlerFunc(func(w http.ResponseWriter, req *http.Request) {
+			servedMu.Lock()
+			servedBy[req.URL.Host]++
+			servedMu.Unlock()
+			if atomic.LoadInt32(&hold) == 1 {
+				entered <- req.URL.Host
+				<-release
+			}
+			w.WriteHeader(204)
+		})
+		rr, _ := roundrobin.New(h)
+		rb, err := roundrobin.NewRebalancer(rr, roundrobin.RebalancerMeter(func() (roundrobin.Meter, error) {
+			m := &countingMeter{}
+			meters = append(meters, m)
+			return m, nil
+		}))
+		if err != nil {
+			fail("Rebalancer: %v", err)
+		} else {
+			hosts := []string{"a:80", "b:80", "c:80"}
+			for round := 0; round < 6; round++ {
+				base := len(meters)
+				for _, hst := range hosts {
+					_ = rb.UpsertServer(mustURL("http://" + hst))
+				}
+				if len(meters) != base+3 {
+					break // the meters are not made one per new server: nothing to tell apart here
+				}
+				servedMu.Lock()
+				servedBy = map[string]int64{}
+				servedMu.Unlock()
+				for k := 0; k < round%3; k++ { // move the rotation on: the request held below is served by a, b or c in turn
+					rb.ServeHTTP(httptest.NewRecorder(), request("10.0.0.5"))
+				}
+				atomic.StoreInt32(&hold, 1)
+				rec := httptest.NewRecorder()
+				done := make(chan interface{}, 1)
+				go func() {
+					defer func() { done <- recover() }()
+					rb.ServeHTTP(rec, request("10.0.0.5"))
+				}()
+				served := <-entered
+				atomic.StoreInt32(&hold, 0)
+				// remove a server listed BEFORE the serving one (the first one, or the second when the first is serving)
+				victim := hosts[0]
+				if served == hosts[0] {
+					victim = hosts[1] // listed after: positions of the serving server do not move, still nothing may be lost
+				}
+				_ = rb.RemoveServer(mustURL("http://" + victim))
+				release <- struct{}{}
+				if p := <-done; p != nil {
+					fail("Rebalancer: a request served by %s panicked in the rebalancer after %s was removed while it was in flight: %v", served, victim, p)
+				} else if rec.Code != 204 {
+					fail("Rebalancer: a request served by %s was answered %d, the handler wrote 204 (%s was removed while it was in flight)", served, rec.Code, victim)
+				}
+				for k, hst := range hosts {
+					servedMu.Lock()
+					want := servedBy[hst]
+					servedMu.Unlock()
+					if got := atomic.LoadInt64(&meters[base+k].n); got != want {
+						fail("Rebalancer: %s was removed while a request served by %s was in flight; afterwards the meter of %s has %d samples, want %d", victim, served, hst, got, want)
+					}
+				}
+				for _, hst := range hosts {
+					_ = rb.RemoveServer(mustURL("http://" + hst))
+				}
+			}
+		}
 	}
 
 	fmt.Printf("race-stress: %d scenarios, %d goroutines x %d requests, %d lost-update failures\n", scenarios, G, N, failures)
